@@ -136,6 +136,18 @@ def _contains_snippet(binary_file: BinaryIO) -> bool:
     return False
 
 
+def _first_copyright_match(line: str) -> Optional[re.Match]:
+    """Return the copyright notice that starts first in *line*. The word
+    'Copyright' may occur again inside of a notice ('© 2016 Free Copyright
+    Society').
+    """
+    matches = [pattern.search(line) for pattern in _COPYRIGHT_PATTERNS]
+    found = [match for match in matches if match is not None]
+    if not found:
+        return None
+    return min(found, key=lambda match: match.start())
+
+
 def extract_reuse_info(text: str) -> ReuseInfo:
     """Extract REUSE information from comments in a string.
 
@@ -161,16 +173,14 @@ def extract_reuse_info(text: str) -> ReuseInfo:
             )
             raise
     for line in text.splitlines():
-        for pattern in _COPYRIGHT_PATTERNS:
-            match = pattern.search(line)
-            if match is not None:
-                copyright_matches.add(
-                    _strip_frame(
-                        line[: match.start()].strip(),
-                        match.groupdict()["copyright"].strip(),
-                    )
+        match = _first_copyright_match(line)
+        if match is not None:
+            copyright_matches.add(
+                _strip_frame(
+                    line[: match.start()].strip(),
+                    match.groupdict()["copyright"].strip(),
                 )
-                break
+            )
 
     return ReuseInfo(
         spdx_expressions=expressions,
